@@ -78,6 +78,9 @@ class C19(Prop):
             for k in range(0, n + 2):
                 for mode in ("exhaust", "close", "drop"):
                     cases.append({"reader": "xlsx_sheets", "n": n, "k": k, "mode": mode, "fault": None})
+            for f in range(n):
+                # a malformed table on the selected sheet: the exception is held while descriptors are counted
+                cases.append({"reader": "xlsx_sheets", "n": n, "k": n + 1, "mode": "exhaust", "fault": f})
         # load_files over a folder of m files with n tables each: one reader at a time, whatever the consumption
         for m in (2, 3):
             for n in (1, 2):
